@@ -4,11 +4,12 @@ import itertools
 POLICIES = ['Block', 'Discard', 'DiscardOldest']
 
 
-def fill_prefix(cap, occ):
-    """ops that bring the logger to a given occupancy: occ = 0..cap buffered items + 1 for a parked worker when occ > 0"""
+def fill_prefix(cap, occ, mixed=False):
+    """ops that bring the logger to a given occupancy: occ = 0..cap buffered items + 1 for a parked worker when occ > 0;
+    mixed: the items are events, raw writes and zero-length raw writes (nil and empty) in turn"""
     ops = []
     for i in range(occ):
-        ops.append('e9.%d' % i)
+        ops.append(('ewzez'[i % 5] if mixed else 'e') + '9.%d' % i)
     return ops
 
 
